@@ -128,7 +128,7 @@ PROPS = {
         "technique": T_R3 + "; " + T_R2,
     },
     "C04": {
-        "clauses": [r1.check_closed_world, r1.check_biguint_normal_form, r1.check_normalize_body, r9.check_eq_ord_hash, r9.check_sign_readers, r5check.check_helpers, r5check.check_constructors, r5check.check_shifts],
+        "clauses": [r1.check_closed_world, r1.check_biguint_normal_form, r1.check_normalize_body, r7.check_serde_tables, r9.check_eq_ord_hash, r9.check_sign_readers, r5check.check_helpers, r5check.check_constructors, r5check.check_shifts],
         "not_decided": "canonical form at every exported boundary (planned R1 typestate); cmp_slice's most-significant-first iteration order",
         "level_text": "Decides (release code only, debug assertions excluded): Eq/Ord/Hash of BigInt read sign and magnitude of every operand, of BigUint the digit vector; Hash reads "
         "only components that Eq compares; cmp_slice consults both lengths and both contents; sign-dependent exporters read the sign.",
@@ -151,7 +151,7 @@ PROPS = {
         "technique": "interprocedural field read-set analysis over MIR (necessity rule)",
     },
     "C10": {
-        "clauses": [_c10_forwarders, _c10_signed, _c10_folds, _no_narrowing, r3.check_panic_site_table, r5check.check_arithmetic(None, 85), r5check.check_powers, r5check.check_upow],
+        "clauses": [_c10_forwarders, _c10_signed, _c10_folds, _no_narrowing, r3.check_panic_site_table, both(r3.check_underflow_asserts), r5check.check_arithmetic(None, 85), r5check.check_powers, r5check.check_upow],
         "not_decided": "digit splitting/padding inside the unsigned scalar leaves and the digit arithmetic of the leaf implementations",
         "level_text": "Every one of the ~1286 operator impl bodies is classified from its MIR: ~970 are proven pure forwarders (operands reach the "
         "callee in order - swapped only for commutative operators -, scalar promotions are value-preserving casts, the callee's result is the result, "
@@ -216,7 +216,7 @@ PROPS = {
         "technique": "inline-asm template data-flow analysis (reaching definitions over the instruction list) + MIR def-use/dominance at the call sites; closed-world unsafe inventory",
     },
     "C16": {
-        "clauses": [r6.check_matrix, r6.check_feature_stability, r6.check_cfg_taint, r3.check_inventory],
+        "clauses": [r6.check_matrix, r6.check_feature_stability, r6.check_cfg_taint, r3.check_inventory, guards(), both(r3.check_underflow_asserts), both(r3.check_radix), both(r3.check_div_guards)],
         "not_decided": "equality of results where it rests on arithmetic (Newton fixpoint independent of the guess; float helper agreement; absence of overflow so that "
         "overflow-check and wrapping builds agree); the 32-bit-digit configuration (not compiled on this target)",
         "level_text": "Decides: all ten documented feature configurations type-check; enabling serde/rand/quickcheck/arbitrary changes the canonical MIR of no function that "
@@ -242,7 +242,7 @@ PROPS = {
         "technique": "abstract interpretation of MIR over the sign domain {-,0,+} with polynomial result terms, compared by normal form with oracle tables written from the definitions",
     },
     "C20": {
-        "clauses": [r8.check_cost_general],
+        "clauses": [r8.check_cost_general, r8.check_mul_calls_no_long_division],
         "not_decided": "constant factors of the linear work (additions, allocation), measured operation counts, wall-clock time",
         "level_text": "Decides the property's inequalities on the work recurrence that the code implies: regime thresholds (32, 256), the 2|x| <= |y| rule and the number of "
         "recursive products per regime (2, 3, 5; maximum over CFG paths, recursion found through the call graph) are read from mac3's MIR and instantiate "
